@@ -13,7 +13,9 @@
   Everything else follows the code.  Not modelled (the emitter of these needs the cell / address layer): the handlers
   func_row, func_column, func_offset, func_indirect, func_subtotal — such names are emitted as plain calls here and are
   kept out of the correspondence generator; RangeNode address normalisation (`AddressRange.create`): the model strips
-  `$` and chooses `_R_` when the text contains `:`.
+  `$` and chooses `_R_` when the text contains `:`; NUMBER tokens that are not decimal literals (openpyxl classifies
+  by `float()`, so `inf`, `nan`, `Infinity` are NUMBERs): they are emitted verbatim as the code does, but Python's lexer
+  reads such text as a NAME where the model says `PyTok.num` (the correspondence compares those on rpn / tree only).
 -/
 import Pycel.Model.Formula.Syntax
 namespace Pycel.Formula
